@@ -66,11 +66,15 @@ Kept_C15(r) == (r.outcome = "ok" /\ r.p1.ok /\ r.p2.ok) => Items(r.p1.tree) = It
 TokKey(t) == <<t.ty, t.pos, t.len, t.line>>
 Drift_Toks(r) == r.haspred => [i \in DOMAIN r.toks |-> TokKey(r.toks[i])] = [i \in DOMAIN r.pred |-> TokKey(r.pred[i])]
 
+\* predicted parse outcome (ParseSM): tree / error and the line the error cites
+Drift_Parse(r) == r.haspp => /\ (r.pp.k = "tree") = r.p1.ok
+                             /\ (~r.p1.ok /\ r.pp.k = "err") => (r.p1.err.lines # <<>> /\ r.p1.err.lines[1] = r.pp.line)
+
 Bad(P(_)) == SetToSeq({i \in DOMAIN Recs : ~P(Recs[i])})
 ASSUME JsonSerialize("verdict.json",
   [Tiles_C16 |-> Bad(Tiles_C16), Total_C08 |-> Bad(Total_C08), AstEq_C06 |-> Bad(AstEq_C06),
    SemEq_C07 |-> Bad(SemEq_C07), Idem_C11 |-> Bad(Idem_C11), Kept_C15 |-> Bad(Kept_C15),
-   Drift_Toks |-> Bad(Drift_Toks),
+   Drift_Toks |-> Bad(Drift_Toks), Drift_Parse |-> Bad(Drift_Parse),
    n |-> Len(Recs),
    nParsed |-> Cardinality({i \in DOMAIN Recs : Recs[i].p1.ok}),
    nErrors |-> Cardinality({i \in DOMAIN Recs : ~Recs[i].p1.ok}),
